@@ -40,7 +40,7 @@ import (
 
 func init() {
 	props["C04"] = &propDef{
-		rule: "cases = (a) every repository media file <= 300 kB unmodified, the same files with mdat payloads cut to 64 bytes, generated progressive and fragmented files; (b) hand-built cross-box scenarios (moov without trak, moof without traf, traf without tfhd, mdat before moof, two moovs, empty saio, short ftyp/styp, senc with 2^32-1 samples in a 84-byte moof, ...); (c) structured mutations of (a), 1-4 steps each, optionally confined to one container and followed by a repair of the saio/mfro cross links: truncation at box boundaries and inside headers, payload shrink/grow with size fix-up, 32-bit size-field corruption {0,1,2,7,8,9,12,15,16,len+-1,len+8,2^31,2^32-1,...}, 64-bit sizes {valid,2^63,2^64-1,16,15,0,8,2^32,...}, removal / removal of all siblings of a type / duplication / swap / insertion of donor boxes with or without fix-up, count-field inflation and deflation (table-driven count offsets and generic aligned words; box size unchanged, inflated, or fitted to a zero count), type changes, version/flags changes, random bytes; (d) the same mutations on every single box of (a) and on boxes of every exported box type built through the library API with reflection-filled fields; (e) synthetic short/degenerate payloads for every registered box type (8- and 16-byte headers) and random strings. Each input runs in an isolated worker process (re-executed harness, RLIMIT_AS 4 GiB, watchdog) through DecodeFile {plain io.Reader, lazy mdat, ISM flag, start-on-moof flag, all combined}, DecodeFileSR {plain, start-on-moof}, DecodeBox, DecodeBoxSR, and every returned structure through Info at levels {\"\", all:1, all:2, one per-box level spec}, Size, Encode and EncodeSW in {box-tree, segment} x {no optimisation, OptimizeTrun}, and Info/Size of the init segment, segments and fragments; oracle per phase: no panic, no fatal runtime error (out of memory, stack exhaustion), wall time <= 1 s + 5 us/byte (hang = 4x that), bytes allocated <= K*len + 16 MiB with K = 16 (decode), 64 (encode), 400 (Info); time/memory violations are confirmed by re-running the input alone; non-trivial = distinct mutated input for which at least one entry point returned a structure",
+		rule: "cases = (a) every repository media file <= 300 kB unmodified, the same files with mdat payloads cut to 64 bytes, generated progressive and fragmented files, fragmented files encrypted through the library (AVC/HEVC with sub-samples, AAC without; cenc with 8- and 16-byte IVs, cbcs); (b) hand-built cross-box scenarios (moov without trak, moof without traf, traf without tfhd, mdat before moof, two moovs, empty saio, short ftyp/styp, senc with 2^32-1 samples in a 84-byte moof, ...) and the count x element-size family: every count-prefixed table box (stts ctts stsc stco co64 stss stsz stz2 stsd dref elst trun saiz saio sbgp sgpd subs tfra pssh ssix senc, PIFF uuid senc) with 3 real entries, bare and inside its container chain, and the senc box inside moof/traf in every context that fixes its per-sample IV size (none, seig group with IV size 0/1/8/16/255, preceding init with tenc IV size 0/8/16) with/without saiz+saio, with/without sub-sample entries, plain and PIFF form, each with the counts around ceil(k*2^32/e) for the element sizes e in play (count*e wraps 32 bits to 0, e, or the real table size) plus 0, n+1, 2^24, 2^31-1, 2^31, 2^32-2, 2^32-1; (c) structured mutations of (a), 1-4 steps each, optionally confined to one container and followed by a repair of the saio/mfro cross links: truncation at box boundaries and inside headers, payload shrink/grow with size fix-up, 32-bit size-field corruption {0,1,2,7,8,9,12,15,16,len+-1,len+8,2^31,2^32-1,...}, 64-bit sizes {valid,2^63,2^64-1,16,15,0,8,2^32,...}, removal / removal of all siblings of a type / duplication / swap / insertion of donor boxes with or without fix-up, count-field inflation and deflation (table-driven count offsets and generic aligned words; round huge values, +-2, or a count whose 32-bit product with an element size - the one the box exhibits, a usual one, or any small one - wraps to what fits the payload; box size unchanged, inflated, or fitted to a zero count), also aimed at a count-prefixed box of the seed instead of a random box, type changes, version/flags changes, random bytes; (d) the same mutations on every single box of (a) and on boxes of every exported box type built through the library API with reflection-filled fields; (e) synthetic short/degenerate payloads for every registered box type (8- and 16-byte headers) and random strings. Each input runs in an isolated worker process (re-executed harness, RLIMIT_AS 4 GiB, watchdog) through DecodeFile {plain io.Reader, lazy mdat, ISM flag, start-on-moof flag, all combined}, DecodeFileSR {plain, start-on-moof}, DecodeBox, DecodeBoxSR, and every returned structure through Info at levels {\"\", all:1, all:2, one per-box level spec}, Size, Encode and EncodeSW in {box-tree, segment} x {no optimisation, OptimizeTrun}, and Info/Size of the init segment, segments and fragments; oracle per phase: no panic, no fatal runtime error (out of memory, stack exhaustion), wall time <= 1 s + 5 us/byte (hang = 4x that), bytes allocated <= K*len + 16 MiB with K = 16 (decode), 64 (encode), 400 (Info); time/memory violations are confirmed by re-running the input alone; non-trivial = distinct mutated input for which at least one entry point returned a structure",
 		gen:  genC04,
 		exec: execC04,
 	}
@@ -691,11 +691,26 @@ func execC04(req string) string {
 		}
 		return sb.String()
 	}
+	if strings.HasPrefix(req, "scenlist") {
+		// diagnostic: index, size and name of every scenario whose name contains the argument
+		var sb strings.Builder
+		for i, sc := range c04Scenarios() {
+			if strings.Contains(sc.name, strings.TrimSpace(req[8:])) {
+				fmt.Fprintf(&sb, "%d [%d bytes] %s; ", i, len(sc.data), sc.name)
+			}
+		}
+		return sb.String()
+	}
+	if strings.HasPrefix(req, "sencsize ") && os.Getenv("VERIF_WORKER") == "C04" {
+		c04WorkerInit()
+		return c04SencSizeAnswer(req)
+	}
 	if strings.HasPrefix(req, "walk ") && os.Getenv("VERIF_WORKER") == "C04" {
 		d, err := unhx(strings.TrimSpace(req[5:]))
 		if err != nil {
 			return "bad-request: " + err.Error()
 		}
+		c04WorkerInit() // the address-space limit also holds when a worker's first line is a walk request
 		return c04WalkAnswer(d)
 	}
 	if os.Getenv("VERIF_WORKER") == "C04" {
